@@ -387,8 +387,10 @@ func NewSimpleDB(basePath string, extraOptions ...ExtraOption) (*DB, error) {
 	mStore := memstore.NewMemStore()
 	rwLock := &sync.RWMutex{}
 	flusherChan := make(chan memStoreFlushAction)
-	doneFlushChan := make(chan bool)
-	doneCompactionChan := make(chan bool)
+	// the done channels have room for their one signal: the background goroutines send it in a deferred call, and a
+	// deferred call that blocks would keep their panic (the way they stop the process on a failure) from ever getting out
+	doneFlushChan := make(chan bool, 1)
+	doneCompactionChan := make(chan bool, 1)
 	compactionTimerStopChannel := make(chan interface{}, 1)
 
 	sstableManager := NewSSTableManager(cmp, rwLock, basePath)
